@@ -171,7 +171,7 @@ func TestVerifC29(t *testing.T) {
 	rep := vfNewReport("C29", "generated requests of the six command types; statement counts and SQL byte sizes at threshold-1/threshold/threshold+1/2x; default (512/4096) and random marshaler thresholds incl. 0 and negative; forced or not; non-trivial = compression was attempted (a threshold reached); distinct by entry bytes + settings")
 	defer rep.Write()
 	r := vfNewRng(29)
-	n := vfScale(1500, 150000)
+	n := vfScale(700, 150000)
 	var ops, impl []string
 	for i := 0; i < n; i++ {
 		m := NewRequestMarshaler()
@@ -305,6 +305,7 @@ func TestVerifC29(t *testing.T) {
 		}
 	}
 	rep.vfCompare("marshal", ops, impl, nil)
+	c29HighlyCompressible(t, rep, vfNewRng(2904))
 	c29Batch(t, rep, vfNewRng(2902))
 	c29Concurrent(t, rep, vfNewRng(2903))
 }
@@ -435,4 +436,90 @@ func c29Concurrent(t *testing.T, rep *vfReport, r *vfRng) {
 	}
 	rep.Case(fmt.Sprintf("concurrent|%d|%d", workers, iters), true)
 	rep.CountN("concurrent-marshal-decode-round-trips", workers*iters)
+}
+
+// c29HighlyCompressible: multi-megabyte uniform payloads, which gzip shrinks by more than
+// 1000:1, for every command type that goes through gzip (QUERY / EXECUTE / EXECUTE_QUERY via
+// the RequestMarshaler, LOAD via MarshalLoadRequest). gunzip(gzip x) = x has to hold for ALL x:
+// the decoding side must not cap how much a compressed entry may inflate to.
+func c29HighlyCompressible(t *testing.T, rep *vfReport, r *vfRng) {
+	mb := 1 << 20
+	sizes := []int{4*mb + 300*1024}
+	if vfThorough() {
+		sizes = []int{4*mb + 300*1024, 8 * mb, 16 * mb, 24 * mb, 32 * mb}
+	}
+	for _, sz := range sizes {
+		kinds := []string{"execute-hex-literal", "load-zero-filled"}
+		if vfThorough() {
+			kinds = append(kinds, "query-in-list", "execute-query-repeated-text")
+		}
+		for _, kind := range kinds {
+			var it *c29Item
+			m := NewRequestMarshaler()
+			switch kind {
+			case "execute-hex-literal":
+				sql := "INSERT INTO t(b) VALUES(X'" + strings.Repeat("00", sz/2) + "')"
+				rq := &proto.ExecuteRequest{Request: &proto.Request{Statements: []*proto.Statement{{Sql: sql}}}}
+				orig := pb.Clone(rq)
+				b, c, err := m.Marshal(rq)
+				if err != nil {
+					t.Fatal(err)
+				}
+				it = &c29Item{orig: orig, typ: proto.Command_COMMAND_TYPE_EXECUTE, sub: b, compressed: c}
+			case "query-in-list":
+				sql := "SELECT * FROM t WHERE a IN (" + strings.Repeat("0,", sz/2) + "0)"
+				rq := &proto.QueryRequest{Request: &proto.Request{Statements: []*proto.Statement{{Sql: sql}}}}
+				orig := pb.Clone(rq)
+				b, c, err := m.Marshal(rq)
+				if err != nil {
+					t.Fatal(err)
+				}
+				it = &c29Item{orig: orig, typ: proto.Command_COMMAND_TYPE_QUERY, sub: b, compressed: c}
+			case "execute-query-repeated-text":
+				sql := "INSERT INTO t(v) VALUES('" + strings.Repeat("a", sz) + "')"
+				rq := &proto.ExecuteQueryRequest{Request: &proto.Request{Statements: []*proto.Statement{{Sql: sql}}}}
+				orig := pb.Clone(rq)
+				b, c, err := m.Marshal(rq)
+				if err != nil {
+					t.Fatal(err)
+				}
+				it = &c29Item{orig: orig, typ: proto.Command_COMMAND_TYPE_EXECUTE_QUERY, sub: b, compressed: c}
+			default:
+				lr := &proto.LoadRequest{Data: make([]byte, sz)}
+				orig := pb.Clone(lr)
+				sub, err := MarshalLoadRequest(lr)
+				if err != nil {
+					t.Fatal(err)
+				}
+				it = &c29Item{orig: orig, typ: proto.Command_COMMAND_TYPE_LOAD, sub: sub}
+			}
+			ratio := sz / (len(it.sub) + 1)
+			rep.Case(fmt.Sprintf("compressible|%s|%d", kind, sz), true)
+			rep.Count("highly-compressible=" + kind)
+			if ratio >= 1000 {
+				rep.Count("highly-compressible-ratio>=1000")
+			}
+			if msg := c29CheckItem(it); msg != "" {
+				rep.Fail("decoded-request-differs:highly-compressible:"+kind,
+					fmt.Sprintf("%s of %d bytes is stored in %d bytes (about %d:1): %s", kind, sz, len(it.sub), ratio, msg),
+					map[string]interface{}{"kind": kind, "payload_bytes": sz, "entry_bytes": len(it.sub), "ratio": ratio})
+			}
+			if !vfThorough() && kind == "load-zero-filled" {
+				// the LOAD path needs a larger payload to pass 1000:1 (protobuf bytes compress a little worse)
+				lr := &proto.LoadRequest{Data: make([]byte, 16*mb)}
+				orig := pb.Clone(lr)
+				sub, err := MarshalLoadRequest(lr)
+				if err != nil {
+					t.Fatal(err)
+				}
+				it2 := &c29Item{orig: orig, typ: proto.Command_COMMAND_TYPE_LOAD, sub: sub}
+				rep.Case("compressible|load|16MB", true)
+				if msg := c29CheckItem(it2); msg != "" {
+					rep.Fail("decoded-request-differs:highly-compressible:"+kind,
+						fmt.Sprintf("zero-filled LoadRequest of 16 MB stored in %d bytes: %s", len(sub), msg),
+						map[string]interface{}{"kind": kind, "payload_bytes": 16 * mb, "entry_bytes": len(sub)})
+				}
+			}
+		}
+	}
 }
